@@ -11,4 +11,6 @@ import BiscuitModel.Lemmas.Authorizer
 import BiscuitModel.Props.C03
 import BiscuitModel.Props.C04
 import BiscuitModel.Props.C05
+import BiscuitModel.Props.C11
+import BiscuitModel.Lemmas.Congr
 import BiscuitModel.Props.C06
